@@ -498,3 +498,9 @@ for _d in sorted(_glob.glob(_os.path.join(_SEEDED, "*"))):
         continue
     CASES.append(dict(kind="mutant", name="seeded-" + _os.path.basename(_d), props=[_m["property"]], edits=[], expect=None,
                       patch=_os.path.join(_d, "patch.diff")))
+
+# ------------------------------------------------------------------------------- later additions
+mutant("c16-noise-limit-uses-p-market", "C16", (NOISE, "            if rng.gen::<f32>() < self.params.p_limit {\n                let side = rng.gen_bool(0.5);\n\n                let order_id = match side {\n                    true => common::place_buy_limit_order(\n                        env,", "            if rng.gen::<f32>() < self.params.p_market {\n                let side = rng.gen_bool(0.5);\n\n                let order_id = match side {\n                    true => common::place_buy_limit_order(\n                        env,"), expect="activity")
+mutant("c01-no-writeback-place", ["C01", "C04", "C02"], (OB, "            }\n        }\n\n        self.orders[order_id] = order_entry;\n    }\n\n    /// Cancel an order", "            }\n        }\n\n        if order_entry.order.status != Status::Rejected {\n            self.orders[order_id] = order_entry;\n        }\n    }\n\n    /// Cancel an order"), expect="writeback")
+mutant("c01-prio-key-swapped", ["C01", "C02"], [(SIDE, "        self.orders.insert((key.1, key.2), idx);", "        self.orders.insert((key.1, key.2 ^ 1), idx);")], expect="lockstep")
+mutant("c02-mid-price-weighted", "C02", (OB, "        0.5 * (f64::from(bid) + f64::from(ask))", "        0.5 * f64::from(bid) + 0.49 * f64::from(ask)"), expect="views")
